@@ -114,5 +114,10 @@ class Existing_Potential_Form(object):
 
   def __call__(self, *args):
     self._check_call(*args)
-    f = self._potential_form(*args)
+    try:
+      f = self._potential_form(*args)
+    except ValueError as e:
+      # parameters the form itself refuses (e.g. as.buck4 with r_min outside the splined region)
+      raise Potential_Form_Exception("Could not create potential form '{}{}': {}".format(
+        self.signature.label, self._check_call.how_used(*args), e))
     return f
